@@ -39,8 +39,13 @@ func CompileAllOf(rootSchema *ischema.ISchema) {
 		c.processType(name)
 	}
 
+	// The tables of the inherited types supply the names the root does not bind
+	// itself. What the root binds stays: it is what has been compiled above (a
+	// namesake from a parent's table has not).
 	for n, t := range c.foundTypes {
-		rootSchema.AddType(n, t)
+		if _, ok := rootSchema.TypesList()[n]; !ok {
+			rootSchema.AddType(n, t)
+		}
 	}
 }
 
